@@ -12,7 +12,7 @@ import vlib
 NS = "TfelVerif.C24."
 # Props modules and the generated groups they need
 QUICK = ["Props1", "Props2", "Props3B", "Props3S", "Props3T", "Calc"]
-THOROUGH = QUICK + ["Props3TE", "Props3Q"]
+THOROUGH = QUICK + ["Props3TE"]
 
 
 def group(name):
